@@ -22,12 +22,12 @@ import (
 // x != y on exactly those operands.
 
 type loopReturn struct {
-	fn     *ssa.Function
-	pos    token.Pos
-	expr   string
-	ok     bool
-	how    string
-	ord    int
+	fn   *ssa.Function
+	pos  token.Pos
+	expr string
+	ok   bool
+	how  string
+	ord  int
 }
 
 func stripConv(info *types.Info, e ast.Expr) ast.Expr {
